@@ -50,6 +50,119 @@ CHECKS = {
         "Trusted: E and R (my reading of the spec); rdflib term construction.",
         "DESIGN.md 2/C04",
     ),
+    "C05": (
+        "exploration",
+        "exhaustive joint-state closure on the real encoder/decoder objects + Hypothesis rule-based state machine + long walks",
+        "Breadth-first closure of the reachable joint state space (LRU order x index assignment x last-assigned x last-reused "
+        "x reader table) of a real LookupEncoder coupled to a real LookupDecoder under key-renaming canonicalisation, for the "
+        "name, prefix (empty prefix distinguished) and datatype rules, completed for sizes 1..7/6/7 (quick) and 1..8/7/8 "
+        "(thorough): at those sizes the mirror invariant holds for every history. Larger sizes and the full TermEncoder -> "
+        "rows -> Decoder path are sampled by a RuleBasedStateMachine and long walks.",
+        "Trusted: the renaming symmetry (tables compare keys only for equality; only the empty prefix is special). "
+        "No claim beyond the enumerated sizes other than the sampled evidence.",
+        "DESIGN.md 2/C05",
+    ),
+    "C06": (
+        "exploration",
+        "exhaustive configuration-lattice enumeration x Hypothesis-generated inputs, raise-or-round-trip oracle",
+        "All ~15 600 points of stream class x 8 logical types x delimited x frame_size x 13 flow choices x 10 entry points are "
+        "executed with generated inputs; each must raise or write bytes that decode (reference decoder and pyjelly) to the "
+        "input, leaving no rows in any captured stream's flow.",
+        "Trusted: R; the harness-side wrapper that captures Stream objects; the writer choice matching params.delimited.",
+        "DESIGN.md 2/C06",
+    ),
+    "C07": (
+        "exploration",
+        "metamorphic re-framing of opaque row blobs + per-frame grouped oracle from the reference decoder",
+        "Rows of valid streams (pyjelly- and E-written) are re-cut into arbitrary frame partitions with empty frames and "
+        "metadata; flat parse must not change, grouped parse must give one sink per frame with exactly that frame's statements "
+        "and metadata; grouped serialisation of 1..6 sinks through one stream must give one statement-carrying frame per "
+        "non-empty input, decoded by R.",
+        "Trusted: my wire codec for splitting rows; R for per-frame content. Known finding F10 is excluded by construction "
+        "and reproduced from its replay.",
+        "DESIGN.md 2/C07",
+    ),
+    "C09": (
+        "fault_enumeration",
+        "scripted short-read schedules on non-seekable sources (fault injection) vs BytesIO baseline",
+        "Valid streams are served through a RawIOBase double following drawn short-read schedules (exhaustively first read "
+        "1..3 x second 1,2,5), BufferedReader over it, real files, gzip, and in the thorough tier real pipes and sockets; "
+        "every parse entry point must return what it returns for BytesIO.",
+        "Trusted: the test doubles implement the io contracts; kernel coalescing limits control over real pipes.",
+        "DESIGN.md 2/C09",
+    ),
+    "C10": (
+        "fault_enumeration",
+        "crash-point enumeration: every cut offset of every generated stream, prefix + completeness oracle",
+        "For each generated delimited stream every byte offset 0..len is cut; flat and grouped parsers (BytesIO and "
+        "short-reading raw source) must yield a prefix of the full parse and at least all statements of completely delivered "
+        "frames.",
+        "Trusted: frame end offsets from my wire codec; R for per-frame event counts.",
+        "DESIGN.md 2/C10",
+    ),
+    "C11": (
+        "exploration",
+        "instrumented pull/yield event log on write; stalling byte source at every frame boundary on parse",
+        "Write: an instrumented input iterator records pending rows at every pull and the reference decoder checks at every "
+        "frame hand-over that frames so far hold exactly the statements pulled so far. Parse: for every frame boundary j the "
+        "source raises when asked for a byte beyond frame j; everything of frames 1..j must have been yielded before.",
+        "Trusted: Stream objects captured by a harness-side constructor wrapper; a read with nothing delivered models a "
+        "blocking socket.",
+        "DESIGN.md 2/C11",
+    ),
+    "C12": (
+        "exploration",
+        "harness-owned generator interleavings and prior histories vs solo output; hash-seed subprocesses; threads",
+        "2..5 serializer / parser generators are stepped in a Hypothesis-drawn interleaving after a drawn history of "
+        "abandoned / failed streams; each output must equal its solo run; the same inputs are serialised in subprocesses "
+        "with four PYTHONHASHSEED values (identical digests) and in real threads with a 1 microsecond switch interval.",
+        "Thread schedules are not owned by the harness (supplementary evidence only).",
+        "DESIGN.md 2/C12",
+    ),
+    "C13": (
+        "exploration",
+        "Hypothesis header round trip checked against the wire + exhaustive accept/reject tables",
+        "Headers over all option fields are written by pyjelly, read back by get_options_and_frames and independently off the "
+        "wire; the 3x8 construction table, 4x8 parse table, name-table minimum, table maximum, version gate and the 8x2x2x2 "
+        "strict-logical-type gates are enumerated completely with crafted headers.",
+        "Trusted: the spec compatibility matrix copied into the check; my wire codec for crafted headers.",
+        "DESIGN.md 2/C13",
+    ),
+    "C14": (
+        "exploration",
+        "Hypothesis bindings x statements: event order, mapping after parse, re-serialisation, on/off metamorphic relation",
+        "Generated binding lists and statements through both integrations and all physical types with tiny tables: declarations "
+        "on the wire (R), Prefix events, namespaces after parse_jelly_to_graph and after re-serialisation must equal the "
+        "source's bindings; statements with the option on == off == input; option off writes no declaration.",
+        "Trusted: rdflib's own binding rules define the rdflib ground truth; prefixes avoid rdflib's built-ins.",
+        "DESIGN.md 2/C14",
+    ),
+    "C15": (
+        "exploration",
+        "differential: six parse entry points and two serializers on the same generated data",
+        "The same valid RDF 1.1 bytes (pyjelly- and E-written) go through flat / grouped / to-graph of both integrations and "
+        "must agree term for term; the same statements and options through both serializers must give identical bytes.",
+        "Trusted: lexical forms are pre-canonicalised through rdflib so rdflib's literal normalisation is not a difference.",
+        "DESIGN.md 2/C15",
+    ),
+    "C16": (
+        "fault_enumeration",
+        "fault injection: one catalogued spec violation x every row position, confirmed invalid by the reference decoder",
+        "For each generated valid stream every row position x every applicable violation class is injected (about 45 classes); "
+        "only mutations that R rejects with the intended kind at the intended row are used; pyjelly's flat and grouped parsers "
+        "must raise and must not have yielded anything the rows before the violation do not denote.",
+        "Trusted: R's classification; assert statements active (no python -O).",
+        "DESIGN.md 2/C16",
+    ),
+    "C17": (
+        "exploration",
+        "watch-dogged generated / mutated / hostile inputs + atheris coverage-guided fuzzing with structure-aware mutator",
+        "Random bytes, mutated valid streams and structure-aware hostile streams run through eight entry-point variants in "
+        "forked workers supervised for death, wall time and RSS growth; atheris campaigns (seeded and empty corpus) on four "
+        "entry points, artifacts re-checked by the plain replay path.",
+        "Trusted: protobuf/upb limits; RSS measured with ru_maxrss; libFuzzer seeds pin a campaign only approximately.",
+        "DESIGN.md 2/C17, 3",
+    ),
     "C18": (
         "exploration",
         "Hypothesis overflow statements: raise-or-reference-decode round trip, no blanket refusal",
